@@ -411,3 +411,81 @@ c13_from_superset!(c13_from_superset_down_dual2svec_2_present, c13_from_superset
 c13_from_superset!(c13_from_superset_down_dual2svec_2_absent, c13_from_superset_same_dual2svec_2_absent, c13_from_superset_up_dual2svec_2_absent, Dual2SVec32<2>, Dual2SVec64<2>, false);
 c13_from_superset!(c13_from_superset_down_dualsvec_1_absent, c13_from_superset_same_dualsvec_1_absent, c13_from_superset_up_dualsvec_1_absent, DualSVec32<1>, DualSVec64<1>, false);
 c13_from_superset!(c13_from_superset_down_dual2svec_1_absent, c13_from_superset_same_dual2svec_1_absent, c13_from_superset_up_dual2svec_1_absent, Dual2SVec32<1>, Dual2SVec64<1>, false);
+
+// ---------------------------------------------------------------- Dyn (heap) flavours, BOUNDED
+// DualDVec32/64 with a derivative of fixed length n = 2 (and symbolically absent).  These
+// exercise the unsafe `map_borrowed` / `try_map_borrowed` loops with run-time dimensions.
+fn any_dualdvec64(n: usize, present: bool) -> DualDVec64 {
+    let e: [f64; 2] = kani::any();
+    let eps = if present { Derivative::some(nalgebra::DVector::from_fn(n, |i, _| e[i])) } else { Derivative::none() };
+    DualDVec64::new(kani::any(), eps)
+}
+fn any_dualdvec32(n: usize, present: bool) -> DualDVec32 {
+    let e: [f32; 2] = kani::any();
+    let eps = if present { Derivative::some(nalgebra::DVector::from_fn(n, |i, _| e[i])) } else { Derivative::none() };
+    DualDVec32::new(kani::any(), eps)
+}
+fn dyn_absent64(d: &Derivative<f64, f64, Dyn, U1>) -> bool {
+    *d == Derivative::none()
+}
+fn dyn_absent32(d: &Derivative<f32, f32, Dyn, U1>) -> bool {
+    *d == Derivative::none()
+}
+
+/// f32 -> f64 -> f32 on DualDVec, n = 2; presence of eps fixed per harness (a symbolic
+/// presence flag made this one harness take 18 min / 26 GB)
+fn check_widen_dyn(present: bool) {
+    let x = any_dualdvec32(2, present);
+    let y: DualDVec64 = x.to_superset();
+    assert!(same_or_nan(y.re, x.re as f64), "Dyn to_superset: re is the `as` cast");
+    assert!(dyn_absent64(&y.eps) == !present, "Dyn to_superset: absent stays absent, present stays present");
+    if present {
+        let (ex, ey) = (x.eps.clone().unwrap_generic(Dyn(2), U1), y.eps.clone().unwrap_generic(Dyn(2), U1));
+        assert!(ey.len() == 2, "Dyn to_superset: length preserved");
+        assert!(same_or_nan(ey[0], ex[0] as f64) && same_or_nan(ey[1], ex[1] as f64), "Dyn to_superset: eps entries are the `as` cast");
+    }
+    let back = <DualDVec32 as SubsetOf<DualDVec64>>::from_superset_unchecked(&y);
+    assert!(same_or_nan(back.re, x.re), "Dyn round trip: re");
+    assert!(dyn_absent32(&back.eps) == !present, "Dyn round trip: absent stays absent");
+    if present {
+        let (ex, eb) = (x.eps.clone().unwrap_generic(Dyn(2), U1), back.eps.clone().unwrap_generic(Dyn(2), U1));
+        assert!(eb.len() == 2 && same_or_nan(eb[0], ex[0]) && same_or_nan(eb[1], ex[1]), "Dyn round trip: eps entries");
+    }
+}
+
+#[kani::proof]
+#[kani::unwind(4)]
+fn c13_widen_dualdvec_n2_present() {
+    check_widen_dyn(true);
+}
+#[kani::proof]
+#[kani::unwind(4)]
+fn c13_widen_dualdvec_absent() {
+    check_widen_dyn(false);
+}
+
+/// (ii) on DualDVec, f64 -> f32, n = 2: `$present` fixed per harness
+fn check_from_superset_dyn(present: bool) {
+    let y = any_dualdvec64(2, present);
+    let claimed = <DualDVec32 as SubsetOf<DualDVec64>>::is_in_subset(&y);
+    let got = <DualDVec32 as SubsetOf<DualDVec64>>::from_superset(&y);
+    assert!(got.is_some() == claimed, "Dyn: from_superset(y).is_some() == is_in_subset(y)");
+    if let Some(z) = got {
+        assert!(same_or_nan(z.re, y.re as f32), "Dyn from_superset: re is the `as` cast");
+        assert!(dyn_absent32(&z.eps) == !present, "Dyn from_superset: absent stays absent");
+        if present {
+            let (ey, ez) = (y.eps.clone().unwrap_generic(Dyn(2), U1), z.eps.clone().unwrap_generic(Dyn(2), U1));
+            assert!(ez.len() == 2 && same_or_nan(ez[0], ey[0] as f32) && same_or_nan(ez[1], ey[1] as f32), "Dyn from_superset: eps entries are the `as` cast");
+        }
+    }
+}
+#[kani::proof]
+#[kani::unwind(4)]
+fn c13_from_superset_down_dualdvec_n2_present() {
+    check_from_superset_dyn(true);
+}
+#[kani::proof]
+#[kani::unwind(4)]
+fn c13_from_superset_down_dualdvec_absent() {
+    check_from_superset_dyn(false);
+}
